@@ -143,6 +143,9 @@ var fnTable = []*fnSpec{
 		return ""
 	}},
 	{name: "round", args: []string{"n", "k"}, ret: "n"},
+	// the guide documents log(base, number) and trunc(number, [precision])
+	{name: "log", args: []string{"g", "q"}, ret: "n", ref: num2(func(b, x float64) (float64, bool) { return math.Log(x) / math.Log(b), b > 0 && b != 1 && x > 0 }), nullStrict: true},
+	{name: "trunc", args: []string{"n"}, ret: "n", ref: num1(always(math.Trunc)), nullStrict: true},
 	{name: "trunc", args: []string{"n", "k"}, ret: "n"},
 	// ---- text ----
 	{name: "upper", args: []string{"s"}, ret: "s", ref: str1(strings.ToUpper), nullDiff: true},
@@ -246,6 +249,9 @@ var fnTable = []*fnSpec{
 	{name: "url_encode", args: []string{"s"}, ret: "s", nullDiff: true},
 	{name: "format", args: []string{"n", "l"}, ret: "s"},
 }
+
+// key names the finding feature / production gate of a table entry: fn:<name>/<fixed parameter count>
+func (f *fnSpec) key() string { return "fn:" + f.name + "/" + itoa(len(f.args)) }
 
 func fnByNameArity(name string, n int) *fnSpec {
 	for _, f := range fnTable {
